@@ -741,13 +741,15 @@ theorem init_inv (nch : Nat) (pol : Policy) : Inv (Node.init nch pol) := by
 
 theorem issue_preserves {n : Node} (hI : Inv n) (h : Hash) (inv : Invoice) : Inv (n.issue h inv).1 := by
   unfold Node.issue
-  cases n.issued h with
-  | some old => exact hI
-  | none =>
-    simp only
-    split
-    · exact hI.transfer rfl rfl rfl (fun _ _ => ⟨rfl, rfl⟩) (fun _ => ⟨rfl, rfl⟩) rfl (fun _ hk => hk)
-    · exact hI
+  split
+  · exact hI
+  · cases n.issued h with
+    | some old => exact hI
+    | none =>
+      simp only
+      split
+      · exact hI.transfer rfl rfl rfl (fun _ _ => ⟨rfl, rfl⟩) (fun _ => ⟨rfl, rfl⟩) rfl (fun _ hk => hk)
+      · exact hI
 
 theorem step_preserves {n n' : Node} {op : Op} {acc : Bool} (hI : Inv n) (hf : FreshApproval n op)
     (hs : n.step op = some (n', acc)) : Inv n' := by
